@@ -571,18 +571,10 @@ fn fix_fq(recs: Vec<Vec<u8>>, container: &str) -> Vec<Vec<u8>> {
 
 fn shrink_cli(c: &CliCase) -> Vec<CliCase> {
     let mut out = Vec::new();
-    for i in 0..c.recs.len() {
+    for r in shrink_records(&c.recs) {
         let mut d = c.clone();
-        d.recs.remove(i);
+        d.recs = r;
         out.push(d);
-    }
-    for i in 0..c.recs.len() {
-        if c.recs[i].len() > 1 {
-            let mut d = c.clone();
-            let h = d.recs[i].len() / 2;
-            d.recs[i].truncate(h);
-            out.push(d);
-        }
     }
     if c.container != "fa" && c.container != "empty" {
         let mut d = c.clone();
